@@ -13,21 +13,30 @@ Section Provenance.
 
   Definition okmT (i : nat) (m : wmsg) : Prop := In (IDeliver i m) its0.
 
+  (* subscribed to BY NAME: a SUB socket filters by prefix ("/a/" also lets "/a/b/" through); with an explicit topic list
+     only the listed names are ever stored *)
+  Definition by_name (md : smode) (k : str) : Prop :=
+    match md with SubExplicit tm => dhas k tm = true | _ => True end.
+
   Definition from_msg (i : nat) (s : src) (k : str) (sm : stored) : Prop :=
-    exists m, okmT i m /\ subscribed s m /\ sm = mk_stored i m /\ k = topic_of_wire (w_wtopic m).
+    exists m, okmT i m /\ subscribed s m /\ sm = mk_stored i m /\ k = topic_of_wire (w_wtopic m) /\ by_name (sc_mode (cfg s)) k.
 
   Definition QT (cur : Z) (i : nat) (s : src) : Prop :=
+    (recvd s = None -> recvd_new (sc_mode (cfg s)) = None) /\
     forall d, recvd s = Some d -> forall k sm, In (k, Some sm) d -> from_msg i s k sm.
 
   Lemma from_msg_cfg i s s' k sm : cfg s = cfg s' -> from_msg i s k sm -> from_msg i s' k sm.
-  Proof. intros Hc (m & A & B & C & D). exists m. unfold subscribed in *. rewrite <- Hc. auto. Qed.
+  Proof. intros Hc (m & A & B & C & D & E). exists m. unfold subscribed in *. rewrite <- Hc. auto. Qed.
 
   Lemma QT_ext m i s s' : cfg s = cfg s' -> recvd s = recvd s' -> QT m i s -> QT m i s'.
-  Proof. unfold QT. intros Hc <- H d Ed k sm Hin. eapply from_msg_cfg; [exact Hc|eapply H; eassumption]. Qed.
+  Proof.
+    unfold QT. intros Hc <- [H0 H]. split; [rewrite <- Hc; exact H0|].
+    intros d Ed k sm Hin. eapply from_msg_cfg; [exact Hc|eapply H; eassumption].
+  Qed.
 
   Lemma QT_reset m i s : QT m i (with_recvd (recvd_new (sc_mode (cfg s))) s).
   Proof.
-    unfold QT. cbn. intros d E k sm Hin. exfalso.
+    unfold QT. cbn. split; [auto|]. intros d E k sm Hin. exfalso.
     pose proof (recvd_new_entries (fun _ => False) _ _ E) as H. exact (H k sm Hin).
   Qed.
 
@@ -50,38 +59,48 @@ Section Provenance.
 
   Lemma process_msg_QT v i m s min_ nw s' :
     okmT i m -> subscribed s m ->
-    process_msg v s (w_mid m) (mk_stored i m) (topic_of_wire (w_wtopic m)) (w_topics m) min_ = Some (nw, s') ->
+    process_msg v s (w_mid m) (mk_stored i m) (heard_topic Repaired (sc_mode (cfg s)) (topic_of_wire (w_wtopic m))) (w_topics m) min_ = Some (nw, s') ->
     QT 0 i s -> QT 0 i s'.
   Proof.
-    unfold QT. intros Hok Hsub Ep HQ.
+    set (tp := heard_topic Repaired (sc_mode (cfg s)) (topic_of_wire (w_wtopic m))).
+    unfold QT. intros Hok Hsub Ep [HQ0 HQ].
     destruct (process_msg_frame _ _ _ _ _ _ _ _ _ (fun _ => True) Ep) as (Pc & _).
-    assert (NEW : from_msg i s' (topic_of_wire (w_wtopic m)) (mk_stored i m)).
-    { exists m. unfold subscribed in *. rewrite Pc. auto. }
+    (* what is stored under [tp] really is this message, under a name that was asked for *)
+    assert (NEW : tp <> [] \/ recvd_new (sc_mode (cfg s)) = None -> from_msg i s' tp (mk_stored i m)).
+    { intro H. exists m. unfold subscribed in *. rewrite Pc. split; [exact Hok|]. split; [exact Hsub|]. split; [reflexivity|].
+      unfold tp in *. destruct (sc_mode (cfg s)) as [| |tm] eqn:Em; cbn [heard_topic by_name]; try (split; [reflexivity|exact I]).
+      destruct H as [H|H]; [|discriminate]. destruct (heard_topic_explicit tm _ H) as [H1 H2]. rewrite H1. split; [reflexivity|exact H1]. }
     unfold process_msg in Ep. destruct (w_mid m <? min_); [discriminate|].
-    intros d' Ed' k sm Hin.
     destruct (recvd s) as [d|] eqn:Er.
     - destruct (w_mid m =? min_).
       + inversion Ep; subst nw s'; clear Ep.
-        destruct (topic_of_wire (w_wtopic m)) as [|c tp] eqn:Et.
-        * rewrite Er in Ed'. inversion Ed'; subst. eapply HQ; eauto.
-        * cbn in Ed'. inversion Ed'; subst. apply dset_In in Hin as [[-> Hv]|Hin]; [inversion Hv; subst; rewrite <- Et in *; exact NEW|].
+        destruct tp as [|c tp'] eqn:Et.
+        * rewrite Er. split; [discriminate|]. intros d' Ed' k sm Hin. inversion Ed'; subst. eapply HQ; eauto.
+        * cbn [recvd with_recvd]. split; [discriminate|]. intros d' Ed' k sm Hin. inversion Ed'; subst.
+          apply dset_In in Hin as [[-> Hv]|Hin]; [inversion Hv; subst; apply NEW; left; discriminate|].
           eapply from_msg_cfg; [|eapply HQ; eauto]. reflexivity.
-      + inversion Ep; subst nw s'; clear Ep. cbn in Ed'. unfold src_new_recv in Ed'.
+      + inversion Ep; subst nw s'; clear Ep. cbn [recvd with_recvd cfg]. unfold src_new_recv.
         destruct (recvd_new (sc_mode (cfg s))) as [rn|] eqn:En.
-        * destruct (topic_of_wire (w_wtopic m)) as [|c tp] eqn:Et; inversion Ed'; subst.
+        * destruct tp as [|c tp'] eqn:Et; (split; [discriminate|]); intros d' Ed' k sm Hin; inversion Ed'; subst.
           -- exfalso. exact (recvd_new_entries (fun _ => False) _ _ En k sm Hin).
-          -- apply dset_In in Hin as [[-> Hv]|Hin]; [inversion Hv; subst; rewrite <- Et in *; exact NEW|].
+          -- apply dset_In in Hin as [[-> Hv]|Hin]; [inversion Hv; subst; apply NEW; left; discriminate|].
              exfalso. exact (recvd_new_entries (fun _ => False) _ _ En k sm Hin).
-        * inversion Ed'; subst. apply init_recvd_entry in Hin as [-> ->]. exact NEW.
-    - inversion Ep; subst nw s'; clear Ep. cbn in Ed'. inversion Ed'; subst.
-      apply init_recvd_entry in Hin as [-> ->]. exact NEW.
+        * split; [discriminate|]. intros d' Ed' k sm Hin. inversion Ed'; subst. apply init_recvd_entry in Hin as [-> ->]. apply NEW. right. reflexivity.
+    - inversion Ep; subst nw s'; clear Ep. cbn [recvd with_recvd cfg]. split; [discriminate|]. intros d' Ed' k sm Hin. inversion Ed'; subst.
+      apply init_recvd_entry in Hin as [-> ->]. apply NEW. right. apply HQ0. reflexivity.
   Qed.
 
   Lemma QT_prune i m cur s eph :
     okmT i m -> (sc_eph (cfg s) = 0 -> cur = w_mid m) -> QT cur i s -> QT cur i (prune s eph (w_topics m)).
   Proof.
-    unfold QT. intros _ _ HQ d' Ed' k sm Hin.
+    unfold QT. intros _ _ [HQ0 HQ].
     pose proof (prune_spec s eph (w_topics m) (fun _ => True)) as (Pc & _).
+    split.
+    { rewrite Pc. intro Hn. apply HQ0. unfold prune in Hn. destruct (recvd s) as [d|] eqn:Er; [|reflexivity].
+      destruct (negb (subscribed_all (sc_mode (cfg s)))); [|rewrite Er in Hn; discriminate].
+      destruct (filter (fun kv => negb (str_mem (fst kv) (w_topics m))) d); [rewrite Er in Hn; discriminate|].
+      destruct (negb eph || existsb (fun kv => str_mem (fst kv) (w_topics m)) d); [discriminate|rewrite Er in Hn; discriminate]. }
+    intros d' Ed' k sm Hin.
     eapply from_msg_cfg; [symmetry; exact Pc|].
     unfold prune in Ed'. destruct (recvd s) as [d|] eqn:Er; [|rewrite Er in Ed'; discriminate].
     destruct (negb (subscribed_all (sc_mode (cfg s)))); [|rewrite Er in Ed'; inversion Ed'; subst; eapply HQ; eauto].
@@ -125,7 +144,8 @@ Theorem receiver_provenance cid ll cs its :
   forall dst sm, In (dst, sm) data ->
   exists i c m, nth_error cs i = Some c /\ In (IDeliver i m) its /\
                 sub_match (subs_of (sc_mode c)) (w_wtopic m) = true /\
-                sm = mk_stored i m /\ dst = tmap c (topic_of_wire (w_wtopic m)).
+                sm = mk_stored i m /\ dst = tmap c (topic_of_wire (w_wtopic m)) /\
+                by_name (sc_mode c) (topic_of_wire (w_wtopic m)).
 Proof.
   intros data id bal Hin dst sm Hd.
   assert (Hw : Forall (fun it => match it with IDeliver i m => okmT its i m | _ => True end) its).
@@ -137,9 +157,9 @@ Proof.
   rewrite Forall_forall in H. specialize (H _ Hin). cbn in H.
   destruct H as (l & Ea & HA & _ & Hcfg).
   destruct (assemble_key _ _ _ _ _ Ea Hd) as [[]|(i & s & d & t0 & Hn & Hr & Hin0 & Ht)].
-  destruct (HA i s Hn d Hr t0 sm Hin0) as (m & A & B & C & D).
+  destruct (proj2 (HA i s Hn) d Hr t0 sm Hin0) as (m & A & B & C & D & N).
   exists i, (cfg s), m. split; [rewrite <- Hcfg, nth_error_map, Hn; reflexivity|].
-  split; [exact A|]. split; [exact B|]. split; [exact C|]. rewrite Ht, D. reflexivity.
+  split; [exact A|]. split; [exact B|]. split; [exact C|]. rewrite <- D. split; [exact Ht|exact N].
 Qed.
 
 (* hidden ('_'-prefixed) topics never pass a subscribe-all ("/") filter, visible ones always do *)
